@@ -24,13 +24,13 @@ FoldEvents(c, k, sp) ==
     LET test == sp.test
         first == IF k = 1 \/ c.strategy = "refit" THEN "fit" ELSE "update"
     IN << [ev |-> first, times |-> sp.train, fh |-> (IF first = "fit" THEN test ELSE NoTimes), xtimes |-> NoTimes,
-           a |-> NoTimes, b |-> NoTimes],
+           a |-> NoTimes, b |-> NoTimes, upd |-> (first = "update")],   \* update() with its default: parameters are updated
           [ev |-> "predict", times |-> NoTimes, fh |-> test,
            xtimes |-> (IF c.nx = 0 THEN NoTimes ELSE Run(LastOf(sp.train) + 1, LastOf(test))),
-           a |-> NoTimes, b |-> NoTimes],
+           a |-> NoTimes, b |-> NoTimes, upd |-> FALSE],
           [ev |-> "metric", times |-> NoTimes, fh |-> NoTimes, xtimes |-> NoTimes,
            a |-> [i \in DOMAIN test |-> YTok(test[i])],          \* truth first
-           b |-> [i \in DOMAIN test |-> FTok(k, i)]] >>           \* forecast second
+           b |-> [i \in DOMAIN test |-> FTok(k, i)], upd |-> FALSE] >>   \* forecast second
 RECURSIVE FlatEvents(_, _, _)
 FlatEvents(c, splits, k) ==
     IF k > Len(splits) THEN << >> ELSE FoldEvents(c, k, splits[k]) \o FlatEvents(c, splits, k + 1)
